@@ -273,7 +273,7 @@ func (s *Service) Start(
 	pipelineID string,
 ) error {
 	defer s.lockPipeline(pipelineID)()
-	return s.start(ctx, pipelineID)
+	return s.start(ctx, pipelineID, nil)
 }
 
 // lockPipeline takes the per-pipeline operation lock (see opLocks) and returns
@@ -294,10 +294,12 @@ func (s *Service) lockPipeline(pipelineID string) (unlock func()) {
 }
 
 // start is Start without taking the per-pipeline operation lock; the caller
-// holds it.
+// holds it. recovering is the failed run this call restarts (StartWithBackoff),
+// nil for a start somebody asked for.
 func (s *Service) start(
 	ctx context.Context,
 	pipelineID string,
+	recovering *runnablePipeline,
 ) error {
 	pl, err := s.pipelines.Get(ctx, pipelineID)
 	if err != nil {
@@ -314,6 +316,14 @@ func (s *Service) start(
 	// restart is replacing). Remember whether it had been force stopped already.
 	oldRp, hadOldRp := s.runningPipelines.Get(pipelineID)
 	forceStoppedBefore := hadOldRp && oldRp.forceStopped.Load()
+	if forceStoppedBefore && oldRp == recovering {
+		// This is the recovery restart of oldRp and a force stop has been
+		// accepted for it. StartWithBackoff looks at the marker too, but that is
+		// a separate, earlier read: a force stop landing between the two was
+		// neither refused there nor carried over below, and the pipeline the
+		// caller was told is force stopped went live again. This read decides.
+		return cerrors.FatalError(pipeline.ErrForceStop)
+	}
 
 	verifhook.Point("lifecycle.start.checked")
 	s.logger.Debug(ctx).Str(log.PipelineIDField, pl.ID).Msg("starting pipeline")
@@ -1991,7 +2001,7 @@ func (s *Service) StartWithBackoff(ctx context.Context, rp *runnablePipeline) er
 		return cerrors.FatalError(pipeline.ErrForceStop)
 	}
 
-	return s.start(ctx, rp.pipeline.ID)
+	return s.start(ctx, rp.pipeline.ID, rp)
 }
 
 // deleteRunningPipelineIfCurrent removes id's entry from runningPipelines only
